@@ -82,6 +82,8 @@ def run(tier):
     thorough = tier == "thorough"
     binary = common.build_harness()
     judge.model_check("SimpleDBDisk.tla", "MC_Disk_sync_big.cfg", o, "exhaustive disk protocol with crashes inside recovery (MaxCrash=2)", timeout=2400)
+    if thorough:
+        judge.model_check("SimpleDBDisk.tla", "MC_Disk_sync_c3.cfg", o, "exhaustive disk protocol with up to three kills, any of them inside recovery (MaxCrash=3)", timeout=3000)
 
     kinds = ["plain", "twoclients", "bigvalues", "plain"]
     nsess = 12 if thorough else 4
@@ -150,13 +152,70 @@ def run(tier):
             n2 += 1
             nperm += 1 if q.perm else 0
             descs[crash.normalize_desc(q.desc).split(" removed=")[0]] += 1
+    # depth three (sampled): level-2 images chosen one per kind of interrupted recovery step in turn; the real Open is recorded on each of them
+    # once more, every syscall boundary inside THAT recovery is a level-3 image, the real recovery runs on each and must still produce the map of
+    # the uninterrupted recovery of the level-1 image ("any number of interrupted attempts is equivalent to one")
+    n3want = 120 if thorough else 16
+    bykind = collections.OrderedDict()
+    for ci, (rep, ref, pts, res) in enumerate(out):
+        if ref is None or not ref.get("ok"):
+            continue
+        for q, r in zip(pts, res):
+            if q.desc == "initial" or not r.get("ok"):
+                continue
+            bykind.setdefault(crash.normalize_desc(q.desc).split(" removed=")[0], []).append((ci, q))
+    for lst in bykind.values():
+        rng.shuffle(lst)
+    picks = []
+    while len(picks) < n3want and any(bykind.values()):
+        for k in list(bykind):
+            if bykind[k] and len(picks) < n3want:
+                picks.append(bykind[k].pop())
+    case_of = {}
+    for i, (sname, idx1, desc1, cls) in enumerate(index):
+        case_of[(sname, idx1)] = i
+
+    def do3(pick):
+        ci, q = pick
+        rep, ref, pts, res = out[ci]
+        c, si, p = rep
+        sess2 = {"root": os.path.join(recs[si]["work"], "n-%d-%d" % (si, p.idx), "lvl1"), "work": os.path.join(recs[si]["work"], "n3-%d-%d-%d" % (si, p.idx, q.idx)),
+                 "keys": recs[si]["keys"]}
+        ref3, pts3, img3 = nested(binary, sess2, q, "l3")
+        if ref3 is None:
+            return pick, None, [], []
+        sess3 = {"root": img3, "work": sess2["work"], "keys": recs[si]["keys"]}
+        return pick, ref3, pts3, crashrun.recover_points(binary, sess3, pts3, tag="img3")
+
+    n3 = 0
+    descs3 = collections.Counter()
+    for pick, ref3, pts3, res3 in common.parallel(do3, picks, nthreads=8):
+        ci, q = pick
+        rep, ref, pts, res = out[ci]
+        c, si, p = rep
+        case = case_of[(sessions[si][0], p.idx)]
+        refm = (list(ref.get("m") or []) + ["?"] * crashrun.NKEYS)[:crashrun.NKEYS]
+        if ref3 is None:
+            o.report("nested3/recovery-hang", "recovery of a level-2 image hangs (session %s point %s '%s', then '%s')" % (sessions[si][0], p.idx, p.desc, q.desc),
+                     {"steps": sessions[si][1], "idx": p.idx, "level2": q.desc})
+            continue
+        lines.append({"t": "reset", "case": case, "mode": "sync"})
+        for q3, r3 in zip(pts3, res3):
+            m = (list(r3.get("m") or []) + ["?"] * crashrun.NKEYS)[:crashrun.NKEYS]
+            lines.append({"t": "cp", "idx": q3.idx, "desc": "[after kill at '%s'] %s" % (crash.normalize_desc(q.desc).split(" removed=")[0], q3.desc), "ok": bool(r3.get("ok")),
+                          "err": (r3.get("err") or "")[:300], "m": m, "kind": "nested", "ref": refm, "cont": (r3.get("cont") or "")[:300]})
+            n3 += 1
+            descs3[crash.normalize_desc(q3.desc).split(" removed=")[0]] += 1
+    o.extra["level3_images"] = n3
+    o.extra["level3_from_level2_points"] = len(picks)
+    o.extra["level3_kinds"] = dict(descs3.most_common(30))
     tp = os.path.join(common.scratch("cj-C10"), "judge.ndjson")
     common.write_ndjson(tp, lines)
     nok, bad, r = judge.judge_trace("CrashJudge.tla", "CrashJudge.cfg", tp, o, "nested crash-point judge", heap="4g")
     for b in bad:
         sname, idx1, desc1, cls = index[b["case"]] if 0 <= b.get("case", -1) < len(index) else ("?", -1, "?", "?")
         steps = dict(sessions).get(sname)
-        d2 = crash.normalize_desc(b["desc"])
+        d2 = crash.normalize_desc(re.sub(r"^\[after kill at '[^']*'\] ", "", b["desc"]))
         d2 = re.sub(r"removed=.*", "", d2).strip()
         sig = "nested/%s/%s/%s" % (d2, b["clause"], crash.normalize_err(b.get("err", "")))
         o.report(sig, "level-1 image: session %s after '%s' (class %s); kill inside recovery after '%s': %s; map %s; error %s" % (
@@ -176,6 +235,7 @@ def run(tier):
     # content level: RecMap / OpenFails of SimpleDBDisk.tla on every decoded level-2 image = what the real (second) recovery made of it
     isess = [(index[i][0], dict(sessions).get(index[i][0])) for i in range(len(index))]
     nibad = c02.judge_images(o, ilines, isess, "sync", "C10")
+    log("[C10] %d level-3 images from %d level-2 images" % (n3, len(picks)))
     log("[C10] %d level-2 images (%d from other unlink orders): %s equal to the uninterrupted recovery, %d rejected" % (n2, nperm, nok, len(bad)))
     o.traces = len(reps)
     o.evaluations = n2
@@ -187,7 +247,7 @@ def run(tier):
               "images of other unlink orders inside RemoveAll; non-trivial = all but the unchanged initial image; level-1 representatives chosen "
               "per abstract disk class (WAL file stages, table stages, compaction flag state)")
     o.sample({"classes": list(classes)[:8]})
-    o.assumptions = ["kill -9 model", "depth two; depth three is covered on the model only (TLC, MaxCrash) "]
+    o.assumptions = ["kill -9 model", "depth two at every syscall boundary of the representatives; depth three sampled (%d level-2 images, one per kind of interrupted step in turn)" % len(picks)]
     if n2 < 50:
         o.problem("vacuous run: only %d level-2 images" % n2)
     return o.finish()
